@@ -41,6 +41,14 @@ CHECKS = {
    technique="bounded-exhaustive exploration with an independent JS-layout reader (all explored histories) and reference encoder (synthetic storages), anchored by the 20 golden interop hashes",
    text="(a) the five interop steps reproduce all 20 golden SHA-256 file hashes and the independent reader decodes those bytes to the scenario state; (b) after every step of every explored writer and replica history (pending entries of all five kinds) the independent reader reconstructs key, writability, fork, length, byte length, present set and block bytes equal to the model/API; (c) ~1500 (quick) synthetic JS-valid storages - header in either slot with every bit pattern, pending append/clear/block-only/upgrade-only/nodes-only entries, finished and unfinished atomic batches, stale entries, zero padding - are opened by the crate to the layout-defined state and remain usable. A hang or panic while opening is a violation (supervisor watchdog).",
    note="User-data sections are never produced by the crate and treated as empty. JS-written oplogs are at least 8192 bytes long (every header flush truncates to the entry offset); shorter files are not generated. Trusted: the reference reader/encoder, anchored to JavaScript by the golden hashes."),
+ "C09": dict(cat="exploration", ref="DESIGN.md §2 C09",
+   technique="exhaustive product of boundary-value requests and structurally arbitrary proofs against the real crate under catch_unwind and a hang/abort watchdog",
+   text="Per core (empty, 1..10 blocks, cleared blocks, reopened, sparse replica states from the C03 saturation): the product of block/hash/seek/upgrade request fields over boundary values around 0, length, 2*length and 2^39..2^40 goes through create_proof; arbitrary proofs vary one section exhaustively (indices, node lists drawn from real/shifted/huge/zero-hash nodes, values, upgrade ranges, signature lengths) with the other sections absent or honest and go through verify_and_apply_proof on a fresh instance. Every call must return a value or an error - a panic, abort or hang (supervisor watchdog) is a violation - and info/has/get must answer as before unless the proof was accepted.",
+   note="Numeric fields stay below 2^40 as in the statement. Overflow checks are enabled for the hypercore crate itself. The C04 sweep covers the honest-proof alteration set and reports panics too."),
+ "C11": dict(cat="exploration", ref="DESIGN.md §2 C11",
+   technique="bounded-exhaustive input enumeration of wire messages and all their strict prefixes, differential against an independent compact-encoding reference",
+   text="Every value of Node, RequestBlock/Seek/Upgrade and DataBlock/Hash/Seek/Upgrade with integers at all varint boundaries (0,252,253,65535,65536,2^32-1,2^32,2^64-1), byte strings of every length 0..300 and node lists of every length 0..8: encoded_size equals the bytes written and the reference length, the bytes equal the reference encoding, decoding returns the original value with nothing left over, and every strict prefix decodes to an error (never a panic).",
+   note="Oracle: harness/src/cenc.rs, written from the compact-encoding rules and lib/messages.js field order. Dependencies are built without overflow checks (as in a release build): in a debug build flat-tree's parent() overflows for node indices >= 2^63-1, which is outside what this check claims."),
 }
 
 PENDING = {
